@@ -125,7 +125,23 @@ func TestC05(t *testing.T) {
 		}
 		sent := map[string]int{} // frame bytes -> index
 		var markers [][]byte
+		lastSize := 0
 		mkFrame := func(i int, size int, mt frame.MessageType) frame.Frame {
+			// Frames carry switch blocks of every legal size now and then.
+			var sw []byte
+			if i < 1000 && c.Chance("sw", 1, 4) {
+				sw = c.Bytes("sw.bytes", core.OneOf(c, "sw.len", 1, 2, 10, 127, 128, 200, 254, 255))
+			}
+			if size < 0 {
+				// The size at which the link frame fills a pooled buffer exactly.
+				fit, ok := exactFit(sender.Builder, sender.IP(), receiver.IP(), mt, sw, 0, -size)
+				if !ok {
+					fit = 100
+				}
+				size = fit
+				c.Class("link-frame-fills-a-buffer-exactly")
+			}
+			lastSize = size
 			payload := make([]byte, size)
 			marker := []byte(fmt.Sprintf("<<C05-MARKER-%04d-%016x>>", i, c.Uint64("marker")))
 			for k := range payload {
@@ -133,11 +149,6 @@ func TestC05(t *testing.T) {
 			}
 			if size >= len(marker) {
 				markers = append(markers, marker)
-			}
-			// Frames carry switch blocks of every legal size now and then.
-			var sw []byte
-			if i < 1000 && c.Chance("sw", 1, 4) {
-				sw = c.Bytes("sw.bytes", core.OneOf(c, "sw.len", 1, 2, 10, 127, 128, 200, 254, 255))
 			}
 			f, err := sender.Builder.NewFrameV1(sender.IP(), receiver.IP(), mt, sw, payload, nil)
 			if err != nil {
@@ -155,10 +166,12 @@ func TestC05(t *testing.T) {
 			}
 			if long {
 				size = min(size, 120)
+			} else if c.Chance("size.fit", 1, 8) {
+				size = -linkTiers[c.Pick("size.fit.tier", len(linkTiers))]
 			}
 			mt := core.OneOf(c, "type", frame.NetworkTraffic, frame.NetworkTraffic, frame.SessionData, frame.RouterPing, frame.RouterCtrl, frame.MessageType(77))
 			f := mkFrame(i, size, mt)
-			c.Note("batch frame %d: type=%d payload=%d", i, mt, size)
+			c.Note("batch frame %d: type=%d payload=%d", i, mt, lastSize)
 			if mt.IsPriority() {
 				_ = sendEnd.Link.SendPriority(f)
 			} else {
@@ -167,6 +180,22 @@ func TestC05(t *testing.T) {
 			// One at a time, so that link frame i on the wire is frame i of the
 			// batch (the writer would otherwise prefer the priority queue).
 			if err := sendEnd.WaitParked(i + 1); err != nil {
+				// Nothing was written. If the link is up and writes a later frame of
+				// the same queue, this one was dropped by the writer (frames of one
+				// queue are written in order).
+				if !sendEnd.Link.IsClosing() {
+					pf, perr := sender.Builder.NewFrameV1(sender.IP(), receiver.IP(), mt, nil, []byte("probe behind a silent frame"), nil)
+					if perr == nil {
+						if mt.IsPriority() {
+							_ = sendEnd.Link.SendPriority(pf)
+						} else {
+							_ = sendEnd.Link.Send(pf)
+						}
+						if sendEnd.WaitParked(i+1) == nil && len(sendEnd.Peek(i)) < 200 && lastSize > 400 {
+							c.Fatalf("batch frame %d (type %d, message of %d bytes) was handed to the link and never written, although the link is up and wrote the frame handed over after it", i, mt, lastSize)
+						}
+					}
+				}
 				c.Class("inconclusive-time-budget")
 				return
 			}
